@@ -163,29 +163,29 @@ class Gen:
         while len(ops) < n:
             x = r.random()
             g = r.choice(GIDS + ([5] if r.random() < 0.05 else []))
-            if x < 0.30: self.scenario(ops)
-            elif x < 0.40: ops.append(self.group(r.choice(GIDS), r.choice(NIDS) if r.random() < 0.25 else None))
-            elif x < 0.50: ops.append(self.message(g))
-            elif x < 0.56: ops.append(f"save_pm {r.choice(WRAPS)} {o(r.choice(MIDS + [None]))} {r.choice(TS)} {o(r.choice(EPOCHS + [None]))} {o(r.choice(GIDS + [None]))} {r.choice([0, 1, 2, 3, 3, 4, 5])} {o(r.choice([None, 1]))}")
-            elif x < 0.60: ops.append(f"save_welcome {r.choice(WIDS)} {r.choice(GIDS)} {r.choice(NIDS)} 3 0 1 1 24 0 2 {r.choice([0, 0, 1, 2])} {r.choice(WRAPS)}")
-            elif x < 0.63: ops.append(f"save_pw {r.choice(WRAPS)} {o(r.choice(WIDS + [None]))} {r.choice(TS)} {r.choice([0, 1])} {o(r.choice([None, 1]))}")
-            elif x < 0.67: ops.append(f"replace_relays {g} {','.join(map(str, r.sample([1, 2, 3, 4], r.choice([0, 1, 2])))) or '-'}")
-            elif x < 0.72: ops.append(f"save_secret {g} {r.choice(EPOCHS)} {r.choice([1, 2, 3])}")
-            elif x < 0.75: ops.append(r.choice([f"mls_write {g} {r.choice(MLS_KEYS)} {r.choice([1, 2])}", f"mls_delete {g} {r.choice(MLS_KEYS)}"]))
-            elif x < 0.78: ops.append(r.choice([f"inval_msgs {g} {r.choice(EPOCHS)}", f"inval_pms {g} {r.choice(EPOCHS)}"]))
-            elif x < 0.81: ops.append(f"mark_retryable {r.choice(WRAPS)}")
-            elif x < 0.83: ops.append(f"upd_last {g} {r.choice(TS)} {r.choice(TS)} {r.choice(MIDS)}")
-            elif x < 0.86:
+            if x < 0.28: self.scenario(ops)
+            elif x < 0.37: ops.append(self.group(r.choice(GIDS), r.choice(NIDS) if r.random() < 0.25 else None))
+            elif x < 0.46: ops.append(self.message(g))
+            elif x < 0.54: ops.append(f"save_pm {r.choice(WRAPS)} {o(r.choice(MIDS + [None]))} {r.choice(TS)} {o(r.choice(EPOCHS + [None]))} {o(r.choice(GIDS + [None]))} {r.choice([0, 1, 2, 3, 3, 4, 5])} {o(r.choice([None, 1]))}")
+            elif x < 0.59: ops.append(f"save_welcome {r.choice(WIDS)} {r.choice(GIDS)} {r.choice(NIDS)} 3 0 1 1 24 0 2 {r.choice([0, 0, 1, 2])} {r.choice(WRAPS)}")
+            elif x < 0.64: ops.append(f"save_pw {r.choice(WRAPS)} {o(r.choice(WIDS + [None]))} {r.choice(TS)} {r.choice([0, 1])} {o(r.choice([None, 1]))}")
+            elif x < 0.69: ops.append(f"replace_relays {g} {','.join(map(str, r.sample([1, 2, 3, 4], r.choice([0, 1, 2])))) or '-'}")
+            elif x < 0.73: ops.append(f"save_secret {g} {r.choice(EPOCHS)} {r.choice([1, 2, 3])}")
+            elif x < 0.76: ops.append(r.choice([f"mls_write {g} {r.choice(MLS_KEYS)} {r.choice([1, 2])}", f"mls_delete {g} {r.choice(MLS_KEYS)}"]))
+            elif x < 0.79: ops.append(r.choice([f"inval_msgs {g} {r.choice(EPOCHS)}", f"inval_pms {g} {r.choice(EPOCHS)}"]))
+            elif x < 0.82: ops.append(f"mark_retryable {r.choice(WRAPS)}")
+            elif x < 0.84: ops.append(f"upd_last {g} {r.choice(TS)} {r.choice(TS)} {r.choice(MIDS)}")
+            elif x < 0.87:
                 self.clock += r.choice([0, 1, 5]); nm = r.choice(SNAPS)
                 self.live_snaps.append((g, nm)); ops.append(f"snap_create {g} {nm} {self.clock}")
-            elif x < 0.89:
+            elif x < 0.90:
                 if self.live_snaps and r.random() < 0.8:
                     g, nm = r.choice(self.live_snaps); self.live_snaps.remove((g, nm))
                 else:
                     nm = r.choice(SNAPS)
                 ops += [f"snap_rollback {g} {nm}", "dump"]
-            elif x < 0.90: ops.append(r.choice([f"snap_release {g} {r.choice(SNAPS)}", f"snap_prune {max(0, self.clock - r.choice([0, 3, 2000]))}"]))
-            elif x < 0.98: ops.append(self.probes(g))
+            elif x < 0.91: ops.append(r.choice([f"snap_release {g} {r.choice(SNAPS)}", f"snap_prune {max(0, self.clock - r.choice([0, 3, 2000]))}"]))
+            elif x < 0.985: ops.append(self.probes(g))
             else: ops.append("dump")
         ops.append("dump")
         return ops
@@ -198,6 +198,62 @@ def generate(seed, ncases, length):
         mcap = rng.choice([1, 2, 3, 3, 10000])
         g = Gen(rng, cap, mcap)
         cases.append({"id": f"lru-{seed}-{i}", "backend": f"lru {cap} {mcap}", "cap": cap, "mcap": mcap, "ops": g.case(length)})
+    return cases
+
+class WithinGen:
+    """histories that stay WITHIN the capacities: key pools no larger than `cache_size` per cache, at most
+    `max_messages_per_group` message ids — here the small-capacity memory backend must answer exactly as SQLite"""
+    def __init__(self, rng, cap, mcap):
+        self.r, self.cap, self.mcap = rng, cap, mcap
+        ng = rng.choice([g for g in (1, 2, 3, 4) if g <= cap])
+        self.gids = GIDS[:ng]
+        self.epochs = EPOCHS[:max(1, cap // ng)]
+        self.wraps = WRAPS[:cap]
+        self.wids = WIDS[:cap]
+        self.mids = MIDS[:min(len(MIDS), mcap)]
+        self.clock = 1000
+        self.snaps = []
+
+    def case(self, n):
+        r = self.r
+        ops = []
+        for g in self.gids:
+            ops.append(f"save_group {g} {g + 10} {r.choice([1, 5])} 0 1 0 - - - 0 0 0")
+        while len(ops) < n:
+            x = r.random()
+            g = r.choice(self.gids)
+            if x < 0.10: ops.append(f"save_group {g} {g + 10} {r.choice([1, 5, 255])} {r.choice([0, 7])} {r.choice([1, 2])} 0 - - - {r.choice(EPOCHS)} {r.choice([0, 1, 2])} 0")
+            elif x < 0.25: ops.append(f"save_message {r.choice(self.mids)} {g} 0 9 {r.choice(TS)} {r.choice(TS)} {r.choice([1, 2])} 8 {r.choice([0, 1, 2])} {r.choice(self.wraps)} {o(r.choice(EPOCHS + [None]))} {r.choice([0, 1, 1, 3])}")
+            elif x < 0.33: ops.append(f"save_pm {r.choice(self.wraps)} {o(r.choice(self.mids + [None]))} {r.choice(TS)} {o(r.choice(EPOCHS + [None]))} {o(r.choice(self.gids + [None]))} {r.choice([0, 1, 2, 3, 3, 4, 5])} {o(r.choice([None, 1]))}")
+            elif x < 0.39: ops.append(f"save_welcome {r.choice(self.wids)} {g} {g + 10} 3 0 1 1 24 0 2 {r.choice([0, 0, 1, 2])} {r.choice(self.wraps)}")
+            elif x < 0.43: ops.append(f"save_pw {r.choice(self.wraps)} {o(r.choice(self.wids + [None]))} {r.choice(TS)} {r.choice([0, 1])} {o(r.choice([None, 1]))}")
+            elif x < 0.49: ops.append(f"replace_relays {g} {','.join(map(str, r.sample([1, 2, 3], r.choice([0, 1, 2])))) or '-'}")
+            elif x < 0.56: ops.append(f"save_secret {g} {r.choice(self.epochs)} {r.choice([1, 2, 3])}")
+            elif x < 0.60: ops.append(r.choice([f"mls_write {g} {r.choice(MLS_KEYS)} {r.choice([1, 2])}", f"mls_delete {g} {r.choice(MLS_KEYS)}"]))
+            elif x < 0.65: ops.append(r.choice([f"inval_msgs {g} {r.choice(EPOCHS)}", f"inval_pms {g} {r.choice(EPOCHS)}"]))
+            elif x < 0.68: ops.append(f"mark_retryable {r.choice(self.wraps)}")
+            elif x < 0.71: ops.append(f"upd_last {g} {r.choice(TS)} {r.choice(TS)} {r.choice(self.mids)}")
+            elif x < 0.76:
+                self.clock += r.choice([1, 5]); nm = r.choice(SNAPS)
+                self.snaps.append((g, nm)); ops.append(f"snap_create {g} {nm} {self.clock}")
+            elif x < 0.81:
+                if self.snaps:
+                    g, nm = r.choice(self.snaps); self.snaps = [s for s in self.snaps if s != (g, nm)]
+                    ops += [f"snap_rollback {g} {nm}", "dump"]
+            elif x < 0.83: ops.append(f"snap_release {g} {r.choice(SNAPS)}")
+            elif x < 0.97: ops.append(Gen(r, self.cap, self.mcap).probes(g))
+            else: ops.append("dump")
+        ops.append("dump")
+        return ops
+
+def generate_within(seed, ncases, length):
+    rng = random.Random(seed * 104729 + 5)
+    cases = []
+    for i in range(ncases):
+        cap = [2, 3, 4][i % 3]
+        mcap = rng.choice([2, 3, 12])
+        cases.append({"id": f"lruwithin-{seed}-{i}", "backend": f"lru {cap} {mcap}", "cap": cap, "mcap": mcap,
+                      "ops": WithinGen(rng, cap, mcap).case(length)})
     return cases
 
 def load_corpus():
@@ -269,19 +325,49 @@ def oracle(cases):
       answers is a record that carries n; if the primary lookup still holds that group it is the same record
       (a group the primary cache no longer holds is reported as `lru-index-ghost`, a different record as
       `lru-index-stale`), and an id carried by a listed record is answered;
-    * a lookup of a key saved within the last `cache_size` distinct keys of its cache returns the value saved
-      (recent-write-visible) — for group records only, the cache whose puts are visible to this oracle."""
+    * LRU exactness for group records (the cache whose puts this oracle can see), until the first successful rollback
+      of the history: `find_group_by_mls_group_id(g)` answers the record last saved iff g is among the last
+      `cache_size` distinct group ids that were saved (reads in between must not count as uses)."""
     fails = []
     stats = collections.Counter()
     def fail(c, k, sig, what):
         fails.append({"kind": "oracle", "signature": sig, "what": f"{c['id']}[{c['backend']}] step {k} `{c['ops'][k]}`: {what}",
                       "replay_body": case_text(c, k, what), "case": c, "step": k})
     for c in cases:
-        collided = False
+        collided = False        # a rollback may have brought back a nostr id that another group had taken (open finding)
+        nid_now, snap_nid = {}, {}
+        puts, saved, rolled = [], {}, False     # group ids by last successful save (oldest first), their last saved fields
         for k, (op, out) in enumerate(zip(c["ops"], c["impl"])):
             t = op.split()
             if out == "panic":
                 fail(c, k, f"panic:{t[0]}", "the call panicked"); continue
+            if t[0] == "save_group" and out == "ok":
+                nid_now[t[1]] = t[2]
+                puts = [g for g in puts if g != t[1]] + [t[1]]
+                saved[t[1]] = (t[1], t[2], t[3], t[4], t[5], t[10], t[11])
+            elif t[0] == "upd_last" and out in ("true", "false"):
+                puts = [g for g in puts if g != t[1]] + [t[1]]
+            elif t[0] == "find_group" and not rolled and out != "err":
+                live = puts[-c["cap"]:]
+                stats["lru_exactness_checked"] += 1
+                if t[1] in live:
+                    g = S.GROUP_RE.search(out)
+                    f = g.group(1).split(",") if g else None
+                    if f is None:
+                        fail(c, k, "lru-recent-record-lost", f"group {t[1]} is among the last {c['cap']} saved group ids {live} but is not found")
+                    elif (f[0], f[1], f[2], f[3], f[4], f[9], f[10]) != saved[t[1]]:
+                        fail(c, k, "lru-record-not-last-saved", f"group {t[1]}: found {out[:80]}, last saved {saved[t[1]]}")
+                elif out != "none":
+                    fail(c, k, "lru-not-least-recently-used", f"group {t[1]} is not among the last {c['cap']} saved group ids {live} but is still found")
+            elif t[0] == "snap_create" and out == "ok":
+                snap_nid[(t[1], t[2])] = nid_now.get(t[1])
+            elif t[0] == "snap_rollback" and out == "ok":
+                rolled = True
+                n = snap_nid.pop((t[1], t[2]), None)
+                if n is not None:
+                    if any(g2 != t[1] and v == n for g2, v in nid_now.items()):
+                        collided = True; stats["rollbacks_onto_taken_id"] += 1
+                    nid_now[t[1]] = n
             if t[0] == "all_groups" and out.startswith("["):
                 n = len(S.GROUP_RE.findall(out)); stats["listings"] += 1
                 if n > c["cap"]:
@@ -297,9 +383,6 @@ def oracle(cases):
                 carried = {}
                 for g, gd in d["groups"].items():
                     carried.setdefault(gd["rec"][2:].split(",")[1], []).append(g)
-                # the restore collision (open finding of C08/C10) precedes: two records carry one id
-                if any(len(v) > 1 for v in carried.values()):
-                    collided = True
                 for nid, ans in d["index"].items():
                     stats["ids_probed"] += 1
                     holders = carried.get(nid, [])
@@ -310,14 +393,67 @@ def oracle(cases):
                         continue
                     g_ans, ep = int(ans.split(".")[0]), ans.split(".")[1]
                     if g_ans not in d["groups"]:
-                        fail(c, k, "lru-index-ghost-after-collision" if collided else "lru-index-ghost",
-                             f"nostr id {nid} answers group {g_ans}, which find_group_by_mls_group_id / all_groups no longer hold")
+                        if collided:
+                            # beyond the capacity and downstream of the open finding: the index holds fewer entries than
+                            # the primary cache, so an index entry outlives its record (reported, Lean witness_index_ghost)
+                            stats["ghost_after_collision"] += 1
+                        else:
+                            fail(c, k, "lru-index-ghost", f"nostr id {nid} answers group {g_ans}, which find_group_by_mls_group_id / all_groups no longer hold, without any rollback onto a taken id before")
                     elif g_ans not in holders:
                         fail(c, k, "restore-nostr-id-collision" if collided else "lru-routing-to-other-group",
                              f"nostr id {nid} answers group {g_ans} whose record carries {d['groups'][g_ans]['rec'][2:].split(',')[1]}")
                     elif d["groups"][g_ans]["rec"][2:].split(",")[9] != ep:
                         fail(c, k, "lru-index-stale", f"nostr id {nid} answers a stale copy of group {g_ans}")
     return fails, dict(stats)
+
+def oracle_within(cases):
+    """C10 on the implementation alone, for the memory backend built with a SMALL cache: on histories that stay
+    within the capacities it answers every operation exactly as the SQLite backend does (S.oracle_c10 on the pair)."""
+    sql = [{"id": c["id"], "backend": "sql", "ops": c["ops"]} for c in cases]
+    S.run(sql)
+    corr_sql = S.correspondence(sql)
+    pairs = sql + [{"id": c["id"], "backend": "mem", "ops": c["ops"], "impl": c["impl"], "model": c["model"]} for c in cases]
+    fails, stats = S.oracle_c10(pairs)
+    for f in fails:
+        if not f["signature"] in ("snapshot-of-missing-group", "restore-nostr-id-collision"):
+            f["signature"] = "lru-within:" + f["signature"]
+    # messages_cache (code 6) is read by no trait method and is not part of `WithinCap`: its evictions do not count
+    vis = lambda st: [e for e in st if e[0] != 6]
+    evicted = [c["id"] for c in cases if any(vis(st) for st in c["evict"])]
+    gen_fail = []
+    for cid in evicted[:3]:
+        c = [x for x in cases if x["id"] == cid][0]
+        k = next(i for i, e in enumerate(c["evict"]) if vis(e))
+        gen_fail.append({"kind": "corr", "signature": "corr:lru:within-generator", "what": f"{cid}: a history generated to stay within the capacities evicts at step {k} `{c['ops'][k]}` (generator or model error)",
+                         "replay_body": case_text(c, k), "case": c, "step": k})
+    stats = dict(stats, histories=len(cases), histories_that_evicted=len(evicted))
+    return fails + corr_sql + gen_fail, stats
+
+def second_engine(tier, seed):
+    """called by ./check C10 after the unbounded store run: (failures, evidence section, assumptions)"""
+    n, length, nw = (240, 60, 60) if tier == "quick" else (4000, 90, 800)
+    cases = load_corpus() + generate(seed, n, length)
+    run(cases)
+    corr = correspondence(cases)
+    ofails, ostats = oracle(cases)
+    within = generate_within(seed, nw, length)
+    run(within)
+    corr_w = correspondence(within)
+    wfails, wstats = oracle_within(within)
+    summ = summarize(cases)
+    section = {"evaluations": len(cases) + len(within), "distinct_nontrivial": summ["distinct_nontrivial"],
+               "rule": "memory backend built with cache_size 1..4 and max_messages_per_group 1..3/10000, seeded op histories over 4(+1) groups / 5 nostr ids / 12 message ids / 30 wrapper ids / 8 welcome ids with targeted shapes (record evicted while dependants stay, re-save, lookups by either id after eviction, id rotation, snapshot + eviction + rollback, restore of several secrets, per-group message cap incl. equally old messages, reads must not promote); non-trivial = history in which at least one eviction happened (as counted by the model that explains every answer of the implementation); distinct by (capacities, op list)",
+               "traces_validated_against_impl": len(cases) + len(within), "steps_compared": sum(len(c["ops"]) for c in cases + within),
+               "correspondence_disagreements": len(corr) + len(corr_w), "oracle_failures": len(ofails) + len(wfails),
+               "oracle_stats": ostats, "within_capacity_vs_sqlite": wstats,
+               "samples": [{"backend": c["backend"], "ops": c["ops"][:25]} for c in cases[-1:] + within[-1:]],
+               "op_histogram": dict(collections.Counter(o.split()[0] for c in cases for o in c["ops"]).most_common())}
+    section.update({k: v for k, v in summ.items() if k != "distinct_nontrivial"})
+    assumptions = ["memlru: the crate lru 0.16.3 behaves as Model/Lru.lean says (put/get/get_mut promote, peek/iter do not, put at capacity evicts the least recently used entry); tied by correspondence on this run's histories",
+                   "memlru: HashMap iteration order is taken as arbitrary (victim among equally old messages at the per-group cap; order in which a restore puts a group's secrets back): the driver keeps every model state consistent with the implementation's answers; theorems quantify over every order",
+                   "memlru: messages_cache (by message id) is read by no trait method; its content and evictions are modelled but cannot be compared",
+                   "memlru: beyond the capacities the memory backend forgets records by design (documented LRU); this is outside C10's 'documented limits' and is reported as behaviour, not as a C10 failure: reported, not listed as findings: lru-index-ghost-after-collision (downstream of the open finding restore-nostr-id-collision; corpus/C10lru/index_ghost_after_collision.trace, counted under oracle_stats.ghost_after_collision), rollback-evicts-other-group (C09 beyond capacity, Lean witness_rollback_evicts_other_group)"]
+    return ofails + wfails + corr + corr_w, section, assumptions
 
 def summarize(cases):
     ev = collections.Counter()
